@@ -839,7 +839,8 @@ EXTRACTORS = {
     # translated function bodies (tools/rs2lean.py); Thm/C08.lean imports RbV.Thm.GenSrc* and restates the theorems
     "C08": [GEN_SRC["SrcKmpLps"], GEN_SRC["SrcShiftAndMasks"], GEN_SRC["SrcHorspoolNew"]],
     "C18": [GEN_SRC["SrcFenwick"], GEN_SRC["SrcBitEnc"]],
-    "C19": [GEN_SRC["SrcQGrams"], GEN_SRC["SrcQGramIndex"]],
+    # SrcAlphabet: Thm/C19.lean composes the q-gram iterator with the translated RankTransform::{new, get}
+    "C19": [GEN_SRC["SrcQGrams"], GEN_SRC["SrcQGramIndex"], GEN_SRC["SrcAlphabet"]],
     "C07": [GEN_SRC["SrcIit"]],
 }
 
